@@ -24,7 +24,7 @@ FUNCTIONS = ['plasTeX.TeX:TeX.processIfContent', 'plasTeX.TeX:TeX.readInteger', 
 RULE = ('one evaluation = one path = one skeleton x one truth assignment class of its tests (z3 splits the unbounded operand space into the classes '
         'the code distinguishes); non-trivial = the skeleton has >= 2 conditionals or an \\ifcase or an \\else')
 BOUNDS = {
-    'quick': 'all skeletons with <= 2 conditionals (nesting depth <= 2) over {iftrue,iffalse,ifnum(<,=,>),ifodd,ifdim,ifx,ifdefined(defined/undefined),'
+    'quick': 'all skeletons with 1 conditional and every second block of 40 of the 2430 skeletons with 2 conditionals (nesting depth <= 2) over {iftrue,iffalse,ifnum(<,=,>),ifodd,ifdim,ifx,ifdefined(defined/undefined),'
              'newif switch with true/false setters, ifcase with 1..3 cases} each with/without \\else, a marker and a \\stepcounter in every branch; '
              'operands unbounded integers / reals / booleans',
     'thorough': 'as quick plus all skeletons with 3 conditionals over {iftrue,iffalse,ifnum,newif,ifcase 1..2 cases} (depth <= 3) and a depth-4 chain family; '
@@ -147,9 +147,9 @@ class Render:
         elif head == 'false':
             self.src.append('\\iffalse ')
         elif head.startswith('num'):
-            self.src.append('\\ifnum\\ra%s\\rb ' % head[3])
+            self.src += ['\\ifnum', st['sa'], '\\ra%s' % head[3], '\\rb ']
         elif head == 'odd':
-            self.src.append('\\ifodd\\ra ')
+            self.src += ['\\ifodd', st['sa'], '\\ra ']
         elif head.startswith('dim'):
             self.src.append('\\ifdim\\da%s\\db ' % head[3])
         elif head == 'x':
@@ -163,7 +163,7 @@ class Render:
         elif head == 'foo':
             self.src.append('\\iffoo ')
         else:
-            self.src.append('\\ifcase\\rc ')
+            self.src += ['\\ifcase', st['sa'], '\\rc ']
         rb = []
         for i, b in enumerate(brs):
             if i:
@@ -173,6 +173,10 @@ class Render:
             if head in ('true', 'false') and i == 0:
                 self.src.append('\\footrue ' if head == 'false' else '\\foofalse ')
                 body.append(('set', head == 'false'))
+            elif head in ('num<', 'odd', 'case2') and i == 0:
+                # declaring the switch again and then setting it: the setter must act on the switch in use
+                self.src.append('\\newif\\iffoo\\footrue ' if head != 'odd' else '\\newif\\iffoo\\foofalse ')
+                body.append(('set', head != 'odd'))
             rb.append(body)
         re_ = None
         if els is not None:
@@ -196,7 +200,7 @@ def ref_eval(e, body, st, out):
             if head.startswith('case'):
                 sel = None
                 for i in range(len(brs)):
-                    if st['rc'] == i:
+                    if _sg(st, 'sa') * st['rc'] == i:
                         sel = brs[i]
                         break
                 if sel is None:
@@ -207,11 +211,11 @@ def ref_eval(e, body, st, out):
                 elif head == 'false':
                     v = False
                 elif head == 'num<':
-                    v = st['ra'] < st['rb']
+                    v = _sg(st, 'sa') * st['ra'] < st['rb']
                 elif head == 'num=':
-                    v = st['ra'] == st['rb']
+                    v = _sg(st, 'sa') * st['ra'] == st['rb']
                 elif head == 'num>':
-                    v = st['ra'] > st['rb']
+                    v = _sg(st, 'sa') * st['ra'] > st['rb']
                 elif head == 'odd':
                     v = (st['ra'] % 2) == 1
                 elif head == 'dim<':
@@ -229,6 +233,10 @@ def ref_eval(e, body, st, out):
                 sel = brs[0] if v else els
             if sel is not None:
                 ref_eval(e, sel, st, out)
+
+
+def _sg(st, k):
+    return -1 if api.eq(st[k], '-') else 1
 
 
 _SKEL_CACHE = {}
@@ -291,6 +299,9 @@ def h_cond(e, family, lo, hi, wrap='none'):
     ctx['iffoo'].state = st['foo']
     st['xa'] = e.char('xa', 97, 122)
     st['xb'] = e.char('xb', 97, 122)
+    # optional signs in front of integer operands (TeX: any run of + and -)
+    st['sa'] = e.char('sa', 43, 45)
+    e.assume(e.one_of(st['sa'], '+-'))
     R = Render()
     if wrap == 'macro':
         R.src.append('\\def\\mac{')
@@ -337,12 +348,12 @@ def jobs(tier, seed):
 
     def fam(family, chunk, wrap='none', stride=1):
         n = len(skeletons(family))
-        for lo in range(0, n, chunk * stride):
+        for lo in range((seed % stride) * chunk, n, chunk * stride):
             J.append(dict(harness='h_cond', params=dict(family=family, lo=lo, hi=min(n, lo + chunk), wrap=wrap),
                           label='%s[%d:%d]%s' % (family, lo, min(n, lo + chunk), '' if wrap == 'none' else ' ' + wrap)))
     fam('k1', 8)
     if tier == 'quick':
-        fam('k2', 40)
+        fam('k2', 12, stride=2)
         fam('k1', 8, wrap='macro')
     else:
         fam('k2', 40)
